@@ -1,4 +1,4 @@
-(* C10 - the walk of the handler registry.  VerifGen.K5R: registration order of pack.py / unpack.py and the guards of
+(* C10 - the walk of the handler registry.  VerifGen.K110a: registration order of pack.py / unpack.py and the guards of
    the registered handlers (translated from /repo on every run); VerifGen.K5D: the two dispatch chains.
    - the first handler in registration order that does not decline answers (Registry.get's loop);
    - a dataclass type is answered by the dataclass handler, whatever the handlers registered later would say;
@@ -9,7 +9,7 @@
 From Coq Require Import List String ZArith Bool.
 From Verif Require Import PyK PyK_strat OptProj Strategies StrategiesProofs Positions K5Kernel K5PKernel PositionsProofs Dispatch
                           PositionsV RegistryWalk.
-From VerifGen Require Import K5D K5R.
+From VerifGen Require Import K5D K110a.
 Import ListNotations.
 Open Scope nat_scope.
 Open Scope string_scope.
